@@ -6,9 +6,14 @@ from collections import Counter
 from . import common as C
 from . import proggen as G
 from . import parsegen as P
+from . import scripted as S
 
 
 def gen_bytes(rng, kind):
+    if kind == "layout":
+        return G.layout_program(rng).encode("utf-8")
+    if kind == "bigarith":
+        return S.bigarith(rng).encode("utf-8")
     if kind == "prog":
         # a program, sometimes preceded by characters a text editor may put first: byte order mark, no-break space, astral
         pre = rng.choice(["", "", "", "\ufeff", "\ufeff\ufeff", "\u00a0", "\U0001f642", "\u2028", "\ufeff\n"])
@@ -62,11 +67,12 @@ def run(prop, tier, seed):
             jobs.append(("boundary", "b%d_%s.hyeong" % (i, sub), prog.encode("utf-8"), False, sub, b""))
     for k in range(n):
         r = rng.random()
-        kind = "prog" if r < 0.35 else "noise" if r < 0.45 else "unstructured" if r < 0.55 else "empty" if r < 0.58 else "badutf8" if r < 0.8 else "reader"
+        kind = ("prog" if r < 0.25 else "bigarith" if r < 0.33 else "layout" if r < 0.42 else "noise" if r < 0.5 else "unstructured" if r < 0.57
+                else "empty" if r < 0.6 else "badutf8" if r < 0.8 else "reader")
         fb = readers(rng).encode("utf-8") if kind == "reader" else gen_bytes(rng, kind)
         name = rng.choice(["p%d.hyeong"] * 12 + ["p%d.txt", "p%d", "p%d.hyeong.bak", "p%d.HYEONG"]) % k
         missing = rng.random() < 0.04
-        sub = rng.choice(["run0", "run1", "run2", "check"])
+        sub = rng.choice(["run0", "run1", "run2", "check"] + (["check"] * 4 if kind == "layout" else []))
         sb = gen_stdin_bytes(rng)
         jobs.append((kind, name, fb, missing, sub, sb))
 
